@@ -82,6 +82,18 @@ def judge(cmd, table, cdb, a):
             expect(got[f] == v, "mismatch:field:" + f, got=got[f], want=v, cdb=cdb)
 
 
+def _wider_than_mask(cmd, a):
+    """an argument exceeds the class's own mask (e.g. ELEMENT TYPE CODE 8..15): the library's decoder
+    cannot represent it, so decode->build is not expected to reproduce the CDB (C02's domain excludes it)."""
+    rename = LIB_FIELD_OF_ARG.get(cmd.name, {})
+    for arg, v in a.items():
+        if cmd.fmap.get(arg) and isinstance(v, int):
+            key = rename.get(arg, arg)
+            if key in cmd.cls._cdb_bits and v >= 1 << bin(cmd.cls._cdb_bits[key][0]).count("1"):
+                return True
+    return False
+
+
 def nontrivial(cmd, a):
     vals = [v for k, v in a.items() if cmd.fmap.get(k) and isinstance(v, int)]
     return sum(1 for v in vals if v) >= 2 or any(v >= 1 << 16 for v in vals)
@@ -101,6 +113,13 @@ def make_check(cmd, table, path):
             with lib("constructor"):
                 c = cmd.build(op, a2)
             cdb = c.cdb
+            # building the CDB again on the same object (what the constructor did) gives the same bytes
+            with lib("build_cdb again"):
+                again = c.build_cdb(**cmd.cls.unmarshall_cdb(bytes(cdb)))
+            if all(v < (1 << bin(cmd.cls._cdb_bits[k][0]).count("1")) for k, v in cmd.cls.unmarshall_cdb(bytes(cdb)).items()):
+                expect(bytes(again) == bytes(cdb) or _wider_than_mask(cmd, a2), "mismatch:second_build_cdb_differs",
+                       first=bytes(cdb), second=bytes(again))
+            expect(bytes(c.cdb) == bytes(cdb), "mismatch:cdb_changed_by_build_cdb")
         elif path == "facade":
             with lib("attach"):
                 s, dev = devs.attach(table, blocksize=a2.get("blocksize", 0) if "blocksize" in cmd.pos else 0)
